@@ -162,3 +162,17 @@ package keeper
 //@ assert after powerFraction: totalPower != 0 && powerFraction == (each.power * 1000000000000000000 * 1000000000000000000) / (totalPower * 1000000000000000000)
 //@ assert after reward: reward == ext("DecCoins.MulDecTruncate", oracleReward, powerFraction)
 //@ loop 1: invariant true
+
+// ---- C13: data-source fees --------------------------------------------------------------------------------
+// The collector accumulates what has been charged for this request so far (over ALL data sources, not only the
+// current one) and pays a data source's treasury only if, denom by denom, the accumulated total is still within
+// the requester's fee limit (a denom absent from the limit counts as 0); the payment is exactly `coins`, from the
+// payer to that treasury; a refusal moves nothing.
+//@ func (coll *feeCollector) Collect
+//@ modifies coll, Bank
+//@ ensures coll.collected == ext("Coins.Add", old(coll.collected), coins) && coll.limit == old(coll.limit) && coll.payer == old(coll.payer)
+//@ ensures err == nil ==> (forall j :: 0 <= j && j < len(coll.collected) ==> coll.collected[j].Amount <= ext("Coins.AmountOf", coll.limit, coll.collected[j].Denom))
+//@ ensures err == nil ==> Bank == bankA2A(old(Bank), coll.payer, treasury, coins)
+//@ ensures err != nil ==> Bank == old(Bank)
+//@ ensures (exists j :: 0 <= j && j < len(coll.collected) && coll.collected[j].Amount > ext("Coins.AmountOf", coll.limit, coll.collected[j].Denom)) ==> err != nil
+//@ loop 0: invariant forall j :: 0 <= j && j < #i ==> coll.collected[j].Amount <= ext("Coins.AmountOf", coll.limit, coll.collected[j].Denom)
